@@ -184,6 +184,10 @@ def check_find(cfg, w, rep, lf):
     else:
         rep.violation("b-stream:%s" % key, "lookup `%s` does not fold over the full validated record stream of bucket_path(cache, key): %s" % (
             short(lf.path), term_str(it)[:140]), loc=span_str(t.span), config=cfg, rule="b-full-traversal")
+    if not t.callee.path.endswith("::fold") or len(t.args) < 3:
+        rep.violation("b-idiom:%s" % key, "UNRECOGNISED-IDIOM: lookup `%s` consumes the record stream with `%s` rather than with a fold from None" % (
+            short(lf.path), t.callee.path.rsplit("::", 1)[-1]), loc=span_str(t.span), config=cfg, rule="b-full-traversal")
+        return
     init = w.sym.of_operand(b, t.args[1])
     if not (init[0] == "agg" and init[1].endswith("Option") and init[2] == "None"):
         rep.violation("b-init:%s" % key, "lookup `%s` starts the fold from %s instead of None" % (short(lf.path), term_str(init)[:60]),
